@@ -19,12 +19,15 @@ PROBES = ['corpus_case', 'step_cap_discarded', 'fault_entry', 'fault_mid_unit', 
           'threads_gt_1', 'fusion_unit_failed', 'circ_unit_failed', 'main_unit_failed', 'absorbed',
           'abort_checked', 'later_unit_after_failed_unit', 'parser_rows_case', 'natural_case',
           'natural_unit_failed', 'natural_with_surviving_units']
-RULE = ('case = generated reference + records (mix biased to fusions/circRNAs so transcripts have several units); '
-        'fault plan = non-empty subset of processing units (main / fusion / circRNA / data gathering), each '
-        'failing at entry with an ordinary exception class or at the k-th line event inside the unit; threads '
-        '1..4 via SimPool.  Plus parser-row cases (parseVEP/STARFusion/FusionCatcher/Arriba on the demo tool '
-        'outputs, random subsets of rows failing).  distinct = distinct (unit kinds, site class + file:line, '
-        'exception class, |F|, threads) signatures whose faults actually fired and were not absorbed')
+RULE = ('case = generated or corpus reference + records (mix biased to fusions/circRNAs so transcripts have s'
+        'everal units); fault plan = non-empty subset of processing units (main / fusion / circRNA / data gat'
+        'hering), a quarter of the plans an early unit of a transcript with >= 3 units, each failing at entry'
+        ' with an ordinary exception class (incl. TimeoutError) or at the k-th line event inside the unit; th'
+        'reads 1..4 via SimPool.  1 case in 7: units that fail by themselves under cleavage rules the graph c'
+        'ode cannot handle.  2 cases in 7: parser rows (parseVEP/STARFusion/FusionCatcher/Arriba on the demo '
+        'tool outputs; failures injected around the conversion or rows that fail by themselves).  distinct = '
+        'distinct (unit kinds, site class + file:line, exception class, |F|, threads) signatures whose faults'
+        ' actually fired and were not absorbed')
 ASSUMPTIONS = [
     'an interior fault is an InjectedFault(Exception) raised from a line event of moPepGen/Bio code: C-level '
     'code is atomic with respect to it',
